@@ -153,8 +153,8 @@ def run(ck, prog):
         ck.ob("DT-validate", c3, ra[0] == "raise", expected="group 1 with a %s rejected" % why, found=ra[0], slot="grp1:" + why, where=h.loc())
         rb = recoded(prog, "kappa_X", {"grp1": ["E", "D"], "grp2": bad})
         ck.ob("DT-validate", c3, rb[0] == "raise", expected="group 2 with a %s rejected" % why, found=rb[0], slot="grp2:" + why, where=h.loc())
-    _membership_only(ck, prog, h, c3)
-    check_api(ck, prog, [("get_Omega", "Omega", None), ("get_Omega_sequence", "Omega_seq", None), ("get_kappa_X", "kappa_X", None)])
+    ck.attempt(_membership_only, ck, prog, h, c3)
+    ck.attempt(check_api, ck, prog, [("get_Omega", "Omega", None), ("get_Omega_sequence", "Omega_seq", None), ("get_kappa_X", "kappa_X", None)])
 
 
 def _membership_only(ck, prog, h, construct):
